@@ -380,6 +380,19 @@ mpf_QSdata *QScopy_prob_mpq_mpf (mpq_QSdata * p,
 	return p2;
 }
 
+#ifdef QSOPT_EX_VERIF
+/* ========================================================================= */
+/** @brief verification hook (compiled only with -DQSOPT_EX_VERIF): when set,
+ * it is called at the decision points of the exact tests and of QSexact_solver
+ * so that an external harness can record the inputs and verdicts. */
+void (*QSexact_verif_hook) (const char *what, int a, int b, mpq_t * v1, int n1,
+														mpq_t * v2, int n2, QSbasis * B) = 0;
+#define QSX_TRACE(what,a,b,v1,n1,v2,n2,B) do { if (QSexact_verif_hook) \
+	QSexact_verif_hook (what, a, b, v1, n1, v2, n2, B); } while (0)
+#else
+#define QSX_TRACE(what,a,b,v1,n1,v2,n2,B)
+#endif
+
 #if QSEXACT_SAVE_OPTIMAL
 /* ========================================================================= */
 /** @brief used to enumerate the generated optimal tests */
@@ -422,6 +435,8 @@ int QSexact_optimal_test (mpq_QSdata * p,
 	mpq_init (d_obj);
 	mpq_set_ui (p_obj, 0UL, 1UL);
 	mpq_set_ui (d_obj, 0UL, 1UL);
+	QSX_TRACE ("opttest_in", basis ? basis->nstruct : -1, basis ? basis->nrows : -1,
+						 p_sol, qslp->ncols, d_sol, qslp->nrows, basis);
 
 	/* now check if the given basis is the optimal basis */
 	arr3 = qslp->lower;
@@ -806,6 +821,7 @@ int QSexact_optimal_test (mpq_QSdata * p,
 
 	/* ending */
 CLEANUP:
+	QSX_TRACE ("opttest_out", rval, 0, 0, 0, 0, 0, 0);
 	mpq_EGlpNumFreeArray (dz);
 	mpq_EGlpNumFreeArray (rhs_copy);
 	mpq_clear (num1);
@@ -843,6 +859,7 @@ int QSexact_infeasible_test (mpq_QSdata * p,
 	mpq_init (num3);
 	mpq_init (d_obj);
 	mpq_set_ui (d_obj, 0UL, 1UL);
+	QSX_TRACE ("inftest_in", 0, 0, 0, 0, d_sol, qslp->nrows, 0);
 
 	/* compute the dual objective value */
 	arr2 = qslp->rhs;
@@ -918,6 +935,7 @@ int QSexact_infeasible_test (mpq_QSdata * p,
 
 	/* ending */
 CLEANUP:
+	QSX_TRACE ("inftest_out", rval, 0, 0, 0, 0, 0, 0);
 	mpq_EGlpNumFreeArray (dl);
 	mpq_EGlpNumFreeArray (du);
 	mpq_clear (num1);
@@ -954,6 +972,7 @@ static void infeasible_output (mpq_QSdata * p_mpq,
 	if (y)
 	{
 		unsigned sz = __EGlpNumArraySize (y_mpq);
+		QSX_TRACE ("out_y", (int) sz, 0, 0, 0, y_mpq, (int) sz, 0);
 		while (sz--)
 			mpq_set (y[sz], y_mpq[sz]);
 	}
@@ -984,12 +1003,14 @@ static void optimal_output (mpq_QSdata * p_mpq,
 	if (y)
 	{
 		unsigned sz = __EGlpNumArraySize (y_mpq);
+		QSX_TRACE ("out_y", (int) sz, 0, 0, 0, y_mpq, (int) sz, 0);
 		while (sz--)
 			mpq_set (y[sz], y_mpq[sz]);
 	}
 	if (x)
 	{
 		unsigned sz = __EGlpNumArraySize (x_mpq);
+		QSX_TRACE ("out_x", (int) sz, 0, x_mpq, (int) sz, 0, 0, 0);
 		while (sz--)
 			mpq_set (x[sz], x_mpq[sz]);
 	}
@@ -1083,6 +1104,7 @@ static int QSexact_basis_status (mpq_QSdata * p_mpq,
 				:(p_mpq->lp->basisstat.dual_infeasible ? 
 					mpq_get_d(p_mpq->lp->dinfeas) : mpq_get_d(p_mpq->lp->objbound)) );
 	}
+	QSX_TRACE ("bstatus", *status, *simplexalgo, 0, 0, 0, 0, 0);
 CLEANUP:
 	mpq_EGlpNumClearVar (fi.totinfeas);
 	return rval;
@@ -1474,6 +1496,7 @@ int QSexact_solver (mpq_QSdata * p_mpq,
 		dbl_QSload_basis (p_dbl, ebasis);
 	if (dbl_ILLeditor_solve (p_dbl, simplexalgo))
 	{
+		QSX_TRACE ("fsolve_fail", 0, 0, 0, 0, 0, 0, 0);
 		MESSAGE(p_mpq->simplex_display ? 0: __QS_SB_VERB, 
 						"double approximation failed, code %d, "
 						"continuing in extended precision", rval);
@@ -1487,6 +1510,7 @@ int QSexact_solver (mpq_QSdata * p_mpq,
 	EGcallD(dbl_QSget_status (p_dbl, status));
 	last_status = *status;
 	EGcallD(dbl_QSget_itcnt(p_dbl, 0, 0, 0, 0, &last_iter));
+	QSX_TRACE ("fstatus", *status, last_iter, 0, 0, 0, 0, 0);
 	/* deal with the problem depending on what status we got from our optimizer */
 	switch (*status)
 	{
@@ -1541,6 +1565,7 @@ int QSexact_solver (mpq_QSdata * p_mpq,
 		y_dbl = dbl_EGlpNumAllocArray (p_dbl->qslp->nrows);
 		if (dbl_QSget_infeas_array (p_dbl, y_dbl))
 		{
+			QSX_TRACE ("finfeas_fail", 0, 0, 0, 0, 0, 0, 0);
 			MESSAGE(p_mpq->simplex_display ? 0 : __QS_SB_VERB, "double approximation"
 							" failed, code %d, continuing in extended precision\n", rval);
 			goto MPF_PRECISION;
@@ -1606,6 +1631,7 @@ int QSexact_solver (mpq_QSdata * p_mpq,
 	for (; it--; precision = (unsigned) (precision * 1.5))
 	{
 		QSexact_set_precision (precision);
+		QSX_TRACE ("rung", (int) precision, it, 0, 0, 0, 0, 0);
 		if (p_mpq->simplex_display || DEBUG >= __QS_SB_VERB)
 		{
 			QSlog("Trying mpf with %u bits", precision);
@@ -1627,12 +1653,14 @@ int QSexact_solver (mpq_QSdata * p_mpq,
 			if (basis)
 			{
 				EGcallD(mpf_QSload_basis (p_mpf, basis));
+				QSX_TRACE ("reuse_basis", 1, 0, 0, 0, 0, 0, basis);
 				mpf_QSfree_basis (basis);
 				simplexalgo = DUAL_SIMPLEX;
 				basis = 0;
 			}
 			else if (ebasis && ebasis->nstruct)
 			{
+				QSX_TRACE ("reuse_basis", 2, 0, 0, 0, 0, 0, ebasis);
 				mpf_QSload_basis (p_mpf, ebasis);
 				simplexalgo = DUAL_SIMPLEX;
 			}
@@ -1652,6 +1680,7 @@ int QSexact_solver (mpq_QSdata * p_mpq,
 		}
 		if (mpf_ILLeditor_solve (p_mpf, simplexalgo))
 		{
+			QSX_TRACE ("fsolve_fail", 1, 0, 0, 0, 0, 0, 0);
 			if (p_mpq->simplex_display || DEBUG >= __QS_SB_VERB)
 			{
 				QSlog("mpf_%u precision falied, error code %d, continuing with "
@@ -1667,6 +1696,7 @@ int QSexact_solver (mpq_QSdata * p_mpq,
 		EGcallD(mpf_QSget_status (p_mpf, status));
 		last_status = *status;
 		EGcallD(mpf_QSget_itcnt(p_mpf, 0, 0, 0, 0, &last_iter));
+		QSX_TRACE ("fstatus", *status, last_iter, 0, 0, 0, 0, 0);
 		/* deal with the problem depending on status we got from our optimizer */
 		switch (*status)
 		{
@@ -1766,6 +1796,7 @@ int QSexact_solver (mpq_QSdata * p_mpq,
 	}
 	/* ending */
 CLEANUP:
+	QSX_TRACE ("exit", rval, *status, 0, 0, 0, 0, basis);
 	dbl_EGlpNumFreeArray (x_dbl);
 	dbl_EGlpNumFreeArray (y_dbl);
 	mpq_EGlpNumFreeArray (x_mpq);
